@@ -6,7 +6,7 @@ import ast
 import sympy as sp
 
 from . import AnalysisError
-from .symval import (SymObj, ClassVal, PropertyVal, Closure, BoundMethod, ModuleVal, Builtin,
+from .symval import (GenVal, ReObj, SymObj, ClassVal, PropertyVal, Closure, BoundMethod, ModuleVal, Builtin,
                      Raised, Phi, Vec, SymRaise, to_expr, merge, _alg, _MISSING)
 
 interp_f = sp.Function("interp")
@@ -344,7 +344,7 @@ def truth(I, v):
         raise AnalysisError("truth value of an array")
     if isinstance(v, Phi):
         return sp.ITE(v.cond, truth(I, v.a), truth(I, v.b))
-    if isinstance(v, (SymObj, Closure, ClassVal, BoundMethod, Builtin, ModuleVal, StrSym)):
+    if isinstance(v, (SymObj, Closure, ClassVal, BoundMethod, Builtin, ModuleVal, StrSym, ReObj, GenVal)):
         return sp.true
     if _alg(v):
         e = to_expr(v)
@@ -362,6 +362,8 @@ def truth(I, v):
 def iterate(I, v):
     if isinstance(v, (list, tuple)):
         return list(v)
+    if isinstance(v, GenVal):
+        return v.take_all()
     if isinstance(v, Vec):
         return list(v.items)
     if isinstance(v, dict):
@@ -375,7 +377,7 @@ def iterate(I, v):
     if isinstance(v, SymObj) and v.cls is not None:
         m = v.cls.lookup("__iter__")
         if m is not _MISSING:
-            return list(I.call(BoundMethod(m, v), [], {}))
+            return iterate(I, I.call(BoundMethod(m, v), [], {}))
     if v is None or (_alg(v) and not any(s in I.arrays for s in to_expr(v).free_symbols)):
         raise SymRaise("TypeError", "object is not iterable")
     if _alg(v):
@@ -477,6 +479,22 @@ def value_attr(I, obj, name):
             return Builtin(name, strm)
     if isinstance(obj, StrSym):
         return Builtin(name, lambda *a, **k: StrSym())
+    if isinstance(obj, ReObj):
+        target = getattr(obj.obj, name, None)
+        if target is None:
+            raise SymRaise("AttributeError", name)
+        if not callable(target):
+            return target
+
+        def remeth(*a, **k):
+            a = [int(x) if isinstance(x, sp.Integer) else x for x in a]
+            if not all(isinstance(x, (str, int)) or x is None for x in a):
+                raise AnalysisError(f"regular expression method {name} on a symbolic value")
+            r = target(*a, **k)
+            if r is not None and type(r).__name__ in ("Match", "Pattern"):
+                return ReObj(r)
+            return r
+        return Builtin(name, remeth)
     if isinstance(obj, Vec):
         if name == "real":
             return Vec(sp.re(to_expr(x)) for x in obj)
@@ -725,7 +743,16 @@ def make_builtins(I):
     reg("enumerate", lambda x, start=0: [(sp.Integer(i), v) for i, v in enumerate(iterate(I, x), concrete_int(start))])
     reg("range", lambda *a: [sp.Integer(i) for i in range(*[concrete_int(x) for x in a])])
     reg("reversed", lambda x: list(reversed(iterate(I, x))))
-    reg("iter", lambda x: iterate(I, x))
+    reg("iter", lambda x: x if isinstance(x, GenVal) else GenVal(iterate(I, x)))
+
+    def b_next(g, *default):
+        if isinstance(g, GenVal) and g.pos < len(g.items):
+            g.pos += 1
+            return g.items[g.pos - 1]
+        if default:
+            return default[0]
+        raise SymRaise("StopIteration", "")
+    reg("next", b_next)
     reg("print", lambda *a, **k: None)
     reg("bool", lambda x=False: _pb(truth(I, x)))
     reg("callable", lambda x: isinstance(x, (Closure, Builtin, BoundMethod, ClassVal)))
@@ -764,9 +791,9 @@ def external(I, dotted):
                 raise AnalysisError(f"re.{name} on a symbolic string")
             r = getattr(_re, name)(*a, **k)
             if name in ("match", "fullmatch", "search"):
-                return None if r is None else I.new_obj("<match>", None, {"group0": r.group(0)})
+                return None if r is None else ReObj(r)
             if name == "compile":
-                raise AnalysisError("compiled regular expressions are not modelled")
+                return ReObj(r)
             return r
         return Builtin(dotted, refn)
     if dotted == "copy.copy":
